@@ -177,6 +177,14 @@ def apply_contract(I, c, qn, args, kwargs, fr, site, finfo=None):
         st.oblige("%s::pre(%s.%s)::%s" % (caller, short(qn), lab, site), t, kind="pre")
     raises = c.get("raises") or {}
     outcomes = ["normal"] + list(raises.keys())
+    merged = None
+    if getattr(I, "handler_depth", 0) == 0 and len(raises) > 1:
+        # no except clause can observe the class: unconditional, effect-free exceptional outcomes are explored
+        # as ONE outcome carrying all their classes (each class is checked against the caller's raises clause)
+        plain = [k for k, v in raises.items() if v == "True"]
+        if len(plain) > 1:
+            merged = plain
+            outcomes = ["normal"] + [k for k in raises if k not in plain[1:]]
     if c.get("noreturn"):
         outcomes = outcomes[1:]
     k = st.choose(len(outcomes)) if len(outcomes) > 1 else 0
@@ -256,6 +264,8 @@ def apply_contract(I, c, qn, args, kwargs, fr, site, finfo=None):
         return res
     cond = raises[out]
     exc = VExc(out, [])
+    if merged and out == merged[0]:
+        exc.fields["__alts"] = merged[1:]
     sf.locals["exc"] = exc
     if isinstance(cond, dict):
         newg = {g: I.E.eval_spec_in(I, e, sf) for g, e in (cond.get("ghost") or {}).items()}
